@@ -21,6 +21,7 @@ structure St where
   sess : Nat
   peer : Option PeerSt
   secure : Bool          -- connection switched to SecureConn (ecdhe): later sends are opaque
+  kept : List (Option Bytes) := []   -- ids of the earlier peers of this case that were handed over
 
 def secretOf (n : Nat) : Bytes := 1 :: b2 n
 
@@ -144,7 +145,19 @@ def deliver (s : St) (m : Msg) : St × String :=
 
 def step (s : St) (toks : List String) : St × String :=
   match toks with
-  | ["reset"] => ({ sess := 0, peer := none, secure := false }, "ok")
+  | ["reset"] => ({ sess := 0, peer := none, secure := false, kept := [] }, "ok")
+  | ["idfill", a, n] =>
+    -- n further distinct peer ids go through NewPeerIDFromPublicKey: identities are values,
+    -- nothing a peer was given can change
+    match a.toNat?, n.toNat? with
+    | some a, some n => if a < 1000 ∨ a + n ≥ 65536 ∨ n > 1000 then (s, "bad-op") else (s, "ok")
+    | _, _ => (s, "bad-op")
+  | ["ids"] =>
+    let cur := match s.peer with
+      | some p => if p.handed ∧ ¬ p.closed then [p.id] else []
+      | none => []
+    let all := s.kept ++ cur
+    (s, if all.isEmpty then "ids -" else "ids " ++ ",".intercalate (all.map idStr))
   | ["vs", pub, sig, ct] =>
     match parsePubTok pub, parseSigTok [9] sig, parseContent [9] ct with
     | some pb, some sg, some c =>
@@ -157,7 +170,10 @@ def step (s : St) (toks : List String) : St × String :=
   | ["sess", inb] =>
     if inb = "1" ∨ inb = "0" then
       let r := onPeer (inb = "1")
-      ({ sess := s.sess + 1, peer := some r.1, secure := false }, render r.2 r.2.length r.1)
+      let kept := match s.peer with
+        | some p => if p.handed ∧ ¬ p.closed then s.kept ++ [p.id] else s.kept
+        | none => s.kept
+      ({ sess := s.sess + 1, peer := some r.1, secure := false, kept := kept }, render r.2 r.2.length r.1)
     else (s, "bad-op")
   | ["secreq", suites, aeads, param] =>
     match natList suites, natList aeads with
